@@ -113,8 +113,8 @@ def parts(tier):
             "all {-1,0,1} matrices with <= 6 entries (shapes up to 2x3/3x2) and a seeded 10% of 3x3 x 4 aggregators")
     return [
         Part("generated", "given", n=n, strategy=lambda: widened(_case())),
-        Part("mgda_long_budgets", "given", n=16 if tier == "quick" else 1_600,
-             strategy=lambda: _long_budget_case(budgets=(30_000,) if tier == "quick" else (30_000, 100_000, 300_000))),
+        Part("mgda_long_budgets", "given", n=16 if tier == "quick" else 320,
+             strategy=lambda: _long_budget_case(budgets=(30_000,) if tier == "quick" else (30_000, 100_000))),
         Part("tiny_integer", "enum", cases=_enum_cases(tier), exhaustive_note=note),
     ]
 
